@@ -636,3 +636,158 @@ pub fn c19(c: &mut Ctx, b: &Budget) {
         c.end();
     }
 }
+
+// ------------------------------------------------------------------ model-side families
+
+fn hexs(s: &str) -> String { hex::encode(s.as_bytes()) }
+
+/// C17, model side: salting through explicit salts, compared with the model
+pub fn c17_model(c: &mut Ctx, b: &Budget) {
+    let cfg = GenCfg::default();
+    for i in 0..(b.scenarios / 2).max(20) {
+        c.begin("salt-model");
+        let e = gen_env(c, &cfg, 2);
+        if !c.is_ok(&e) { c.end(); continue; }
+        let sl = 8 + c.rng.below(12); let salt = hex::encode(c.rng.bytes(sl));
+        let s = c.assign(&format!("add_salt_instance {} {}", e, salt));
+        c.obs(&format!("shape {}", s));
+        // the library's own random add_salt: read the drawn salt back and hand it to the model
+        if let Some(env) = c.env(&e) {
+            let salted = env.add_salt();
+            let drawn = salted.assertions_with_predicate(known_values::SALT).into_iter().find(|a| !env.assertions().iter().any(|x| x.digest() == a.digest()))
+                .and_then(|a| a.as_object()).and_then(|o| o.extract_subject::<Salt>().ok());
+            if let Some(d) = drawn {
+                let m = c.assign(&format!("add_salt_instance {} {}", e, hex::encode(d.data())));
+                let imp = c.assign(&format!("decode {}", hex::encode(bytes_of(&salted))));
+                c.obs(&format!("eq {} {}", m, imp));
+                let same = c.env(&m).map(|x| x.digest() == salted.digest()).unwrap_or(false);
+                c.check("add-salt-is-one-salt-assertion", same, "salt-shape", || "add_salt() differs from adding the drawn salt as one 'salt' assertion".into());
+            }
+        }
+        for n in [0usize, 7, 8, 9, 30] { let bytes = hex::encode(c.rng.bytes(n.max(1))); c.assign(&format!("add_salt_with_len {} {} {}", e, n, bytes)); }
+        let p = gen_leaf(c, &cfg); let o = gen_env(c, &cfg, 1);
+        let sa = c.assign(&format!("add_salted {} {} {} {}", e, p, o, salt));
+        let un = c.assign(&format!("add_salted {} {} {} -", e, p, o));
+        let plain_a = c.assign(&format!("assertion {} {}", p, o));
+        let plain = c.assign(&format!("add {} {}", e, plain_a));
+        c.obs(&format!("shape {}", sa));
+        c.obs(&format!("eq {} {}", un, plain));
+        c.obs(&format!("awp {} {}", sa, p));
+        c.obs(&format!("ofp {} {}", sa, p));
+        c.obs(&format!("osfp {} {}", sa, p));
+        let _ = i;
+        c.end();
+    }
+}
+
+/// C19, model side: attachments and types through the EVL
+pub fn c19_model(c: &mut Ctx, b: &Budget) {
+    let cfg = GenCfg::default();
+    let vendors = ["com.example", "org.other"];
+    let confs = ["-".to_string(), hexs("https://example.com/v1"), hexs("spec-2")];
+    for i in 0..(b.scenarios / 2).max(20) {
+        c.begin("attachments-model");
+        let mut e = gen_leaf(c, &cfg);
+        for _ in 0..c.rng.below(2) { let a = gen_assertion(c, &cfg, 1); let n = c.assign(&format!("add {} {}", e, a)); if c.is_ok(&n) { e = n; } }
+        let n = c.rng.below(4);
+        for _ in 0..n {
+            let payload = gen_env(c, &cfg, 2);
+            let v = hexs(vendors[c.rng.below(2)]); let cf = confs[c.rng.below(3)].clone();
+            let r = c.assign(&format!("add_attachment {} {} {} {}", e, payload, v, cf));
+            if c.is_ok(&r) { e = r; }
+        }
+        // sometimes a malformed or decorated attachment assertion
+        if i % 3 == 0 {
+            let k = c.assign("kv 50");
+            let bad_obj = match c.rng.below(4) {
+                0 => gen_leaf(c, &cfg),
+                1 => { let pl = gen_leaf(c, &cfg); c.assign(&format!("wrap {}", pl)) }   // no vendor
+                2 => { let pl = gen_leaf(c, &cfg); let w = c.assign(&format!("wrap {}", pl)); let vp = c.assign("kv 51"); let vo = c.assign("leaf 07"); let va = c.assign(&format!("assertion {} {}", vp, vo)); c.assign(&format!("add {} {}", w, va)) } // vendor not text
+                _ => { let pl = gen_leaf(c, &cfg); let good = c.assign(&format!("new_attachment {} {} -", pl, hexs("v"))); let o = c.assign(&format!("at {} o", good)); let vp = c.assign("kv 51"); let vo = c.assign(&format!("leaf {}", hex::encode(CBOR::from("second").to_cbor_data()))); let va = c.assign(&format!("assertion {} {}", vp, vo)); c.assign(&format!("add {} {}", o, va)) } // two vendors
+            };
+            let a = c.assign(&format!("assertion {} {}", k, bad_obj));
+            c.obs(&format!("validate_attachment {}", a));
+            let r = c.assign(&format!("add {} {}", e, a));
+            if c.is_ok(&r) { e = r; c.count("branch:malformed-attachment"); }
+        }
+        if i % 4 == 1 {
+            // decorated (salted) attachment assertion
+            let pl = gen_leaf(c, &cfg); let good = c.assign(&format!("new_attachment {} {} -", pl, hexs("com.example")));
+            let sp = c.assign("kv 15"); let so = c.assign("leaf 480102030405060708"); let sa = c.assign(&format!("assertion {} {}", sp, so));
+            let dec = c.assign(&format!("add {} {}", good, sa));
+            let r = c.assign(&format!("add {} {}", e, dec));
+            if c.is_ok(&r) { e = r; c.count("branch:decorated-attachment"); }
+        }
+        c.obs(&format!("shape {}", e));
+        for v in ["-".to_string(), hexs("com.example"), hexs("org.other"), hexs("absent")] { for cf in ["-".to_string(), hexs("https://example.com/v1"), hexs("absent")] {
+            c.obs(&format!("attachments {} {} {}", e, v, cf));
+            c.assign(&format!("attachment1 {} {} {}", e, v, cf));
+        } }
+        if let Some(env) = c.env(&e) { for (k, a) in env.assertions().iter().enumerate() { if a.is_assertion() { let r = c.assign(&format!("at {} a{}", e, k)); c.obs(&format!("validate_attachment {}", r)); c.obs(&format!("attachment_fields {}", r)); } } }
+        // types
+        let mut te = gen_leaf(c, &cfg);
+        let tys = [c.assign("kv 200"), c.assign("kv 201"), c.assign(&format!("leaf {}", hex::encode(CBOR::from("Custom").to_cbor_data()))), c.assign("leaf 07")];
+        for t in &tys { if c.rng.chance(1, 2) { te = c.assign(&format!("add_type {} {}", te, t)); } }
+        if i % 3 == 0 { let p = c.assign("kv 1"); te = c.assign(&format!("add_salted {} {} {} 0102030405060708", te, p, tys[0])); }
+        c.obs(&format!("types {}", te));
+        for t in &tys { c.obs(&format!("has_type {} {}", te, t)); }
+        c.assign(&format!("get_type {}", te));
+        c.end();
+    }
+}
+
+/// C18, model side
+pub fn c18_model(c: &mut Ctx, b: &Budget) {
+    let cfg = GenCfg::default();
+    for i in 0..(b.scenarios / 2).max(20) {
+        c.begin("expressions-model");
+        let f = if i % 2 == 0 { format!("k:{}", (i % 7) + 1) } else { format!("n:{}", hexs(["foo", "add", "", "héllo"][i % 4])) };
+        let np = c.rng.below(4);
+        let mut ps = vec![];
+        for k in 0..np { let v = gen_env(c, &cfg, 1); let p = if c.rng.chance(1, 2) { format!("k:{}", k + 1) } else { format!("n:{}", hexs(["bar", "lhs", "x"][k % 3])) }; ps.push(format!("{}={}", p, v)); }
+        let pss = if ps.is_empty() { "-".to_string() } else { ps.join(",") };
+        let ex = c.assign(&format!("mk_expression {} {}", f, pss));
+        c.obs(&format!("shape {}", ex));
+        c.obs(&format!("parse_expression {} -", ex));
+        c.obs(&format!("parse_expression {} {}", ex, f));
+        c.obs(&format!("parse_expression {} n:{}", ex, hexs("another")));
+        c.obs(&format!("parse_expression {} k:999", ex));
+        let id = hex::encode(c.rng.bytes(32));
+        let note = ["-".to_string(), hexs("a note"), hexs("ünïcode")][i % 3].clone();
+        let date = ["-".to_string(), format!("{}", 1_700_000_000i64 + i as i64), format!("-{}", 86_400 * (i as i64 + 1)), "0".to_string()][i % 4].clone();
+        let rq = c.assign(&format!("mk_request {} {} {} {} {}", id, f, pss, note, date));
+        c.obs(&format!("shape {}", rq));
+        c.obs(&format!("parse_request {}", rq));
+        let rc = c.assign(&format!("recode {}", rq)); c.obs(&format!("parse_request {}", rc));
+        // malformed requests
+        let wrong_tag = c.assign(&format!("leaf {}", hex::encode(CBOR::to_tagged_value(40005u64, CBOR::to_tagged_value(40012u64, CBOR::to_byte_string(vec![1u8; 32]))).to_cbor_data())));
+        let w = c.assign(&format!("replace_subject {} {}", rq, wrong_tag)); c.obs(&format!("parse_request {}", w));
+        if let Some(env) = c.env(&rq) { if let Some(k) = env.assertions().iter().position(|a| a.as_predicate().map(|p| p.digest() == Envelope::new(known_values::BODY).digest()).unwrap_or(false)) { let ba = c.assign(&format!("at {} a{}", rq, k)); let nb = c.assign(&format!("remove {} {}", rq, ba)); c.obs(&format!("parse_request {}", nb)); } }
+        c.obs(&format!("parse_request {}", ex));
+        // responses
+        let body = gen_env(c, &cfg, 1);
+        for (kind, idv) in [("success", id.clone()), ("failure", id.clone()), ("failure", "-".to_string())] {
+            let rs = c.assign(&format!("mk_response {} {} {}", kind, idv, body));
+            c.obs(&format!("shape {}", rs));
+            c.obs(&format!("parse_response {}", rs));
+            let rp = c.assign("kv 101"); let ep = c.assign("kv 102"); let x = gen_leaf(c, &cfg);
+            let other = if kind == "success" { c.assign(&format!("assertion {} {}", ep, x)) } else { c.assign(&format!("assertion {} {}", rp, x)) };
+            let both = c.assign(&format!("add {} {}", rs, other)); c.obs(&format!("parse_response {}", both));
+            let y = gen_leaf(c, &cfg);
+            let dup = if kind == "success" { c.assign(&format!("assertion {} {}", rp, y)) } else { c.assign(&format!("assertion {} {}", ep, y)) };
+            let both2 = c.assign(&format!("add {} {}", both, dup)); c.obs(&format!("parse_response {}", both2));
+            let two = c.assign(&format!("add {} {}", rs, dup)); c.obs(&format!("parse_response {}", two));
+            let neither = c.assign(&format!("subject {}", rs)); c.obs(&format!("parse_response {}", neither));
+            let wt = c.assign(&format!("replace_subject {} {}", rs, wrong_tag)); c.obs(&format!("parse_response {}", wt));
+            let kvsub = c.assign(&format!("leaf {}", hex::encode(CBOR::to_tagged_value(40005u64, CBOR::to_tagged_value(40000u64, 99u64)).to_cbor_data())));
+            let ws = c.assign(&format!("replace_subject {} {}", rs, kvsub)); c.obs(&format!("parse_response {}", ws));
+        }
+        // events
+        let ev = c.assign(&format!("mk_event {} {} {} {}", id, hexs(&format!("content {}", i)), note, date));
+        c.obs(&format!("shape {}", ev));
+        c.obs(&format!("parse_event {}", ev));
+        let we = c.assign(&format!("replace_subject {} {}", ev, wrong_tag)); c.obs(&format!("parse_event {}", we));
+        c.obs(&format!("parse_event {}", rq));
+        c.end();
+    }
+}
